@@ -1,1 +1,98 @@
-fn main(){ println!("ok"); }
+mod decode;
+mod exec;
+mod gen;
+mod hist;
+mod metric;
+mod search;
+
+use std::collections::BTreeSet;
+use std::io::Write;
+
+use serde_json::{json, Value};
+
+fn arg(args: &[String], name: &str) -> Option<String> {
+    args.iter().position(|a| a == name).and_then(|p| args.get(p + 1)).cloned()
+}
+
+fn write_trace(path: &str, events: &[Value]) {
+    let mut f = std::io::BufWriter::new(std::fs::File::create(path).unwrap());
+    for e in events {
+        writeln!(f, "{}", e).unwrap();
+    }
+}
+
+fn run_many(hists: &[hist::History], threads: usize, cfg: &exec::RunCfg, out_prefix: &str, first_no: usize) {
+    let pool = rayon::ThreadPoolBuilder::new().num_threads(threads).build().unwrap();
+    let mut events = Vec::new();
+    let mut agg = exec::RunStats::default();
+    let mut hashes: BTreeSet<u64> = BTreeSet::new();
+    for (i, h) in hists.iter().enumerate() {
+        let st = pool.install(|| {
+            let mut ev = Vec::new();
+            let st = exec::run_history(h, first_no + i, cfg, &mut ev);
+            events.append(&mut ev);
+            st
+        });
+        agg.events += st.events;
+        agg.builds_ok += st.builds_ok;
+        agg.builds_err += st.builds_err;
+        agg.panics += st.panics;
+        agg.nontrivial_builds += st.nontrivial_builds;
+        hashes.extend(st.state_hashes);
+    }
+    write_trace(&format!("{out_prefix}.ndjson"), &events);
+    std::fs::write(format!("{out_prefix}.hist.json"), serde_json::to_string(&hists).unwrap()).unwrap();
+    let stats = json!({"histories": hists.len(), "events": agg.events, "builds_ok": agg.builds_ok, "builds_err": agg.builds_err,
+        "panics": agg.panics, "nontrivial_builds": agg.nontrivial_builds, "distinct_forests": hashes.len(), "threads": threads,
+        "first_no": first_no});
+    std::fs::write(format!("{out_prefix}.stats.json"), stats.to_string()).unwrap();
+    println!("{stats}");
+}
+
+fn main() {
+    let args: Vec<String> = std::env::args().collect();
+    exec::quiet_panics();
+    let cmd = args.get(1).map(|s| s.as_str()).unwrap_or("");
+    match cmd {
+        "gen" => {
+            let profile = arg(&args, "--profile").unwrap_or("forest".into());
+            let seed: u64 = arg(&args, "--seed").map(|s| s.parse().unwrap()).unwrap_or(1);
+            let count: usize = arg(&args, "--count").map(|s| s.parse().unwrap()).unwrap_or(10);
+            let threads: usize = arg(&args, "--threads").map(|s| s.parse().unwrap()).unwrap_or(1);
+            let first_no: usize = arg(&args, "--first").map(|s| s.parse().unwrap()).unwrap_or(0);
+            let out = arg(&args, "--out").expect("--out prefix");
+            let p = gen::profile(&profile);
+            let mut hs = Vec::new();
+            if profile == "forest" && seed == 0 {
+                hs.push(gen::straight_line());
+            }
+            for k in 0..count {
+                hs.push(gen::gen_history(seed.wrapping_mul(1_000_003).wrapping_add(k as u64), &p));
+            }
+            run_many(&hs, threads, &exec::RunCfg::default(), &out, first_no);
+        }
+        "replay" => {
+            let file = arg(&args, "--hist").expect("--hist file");
+            let out = arg(&args, "--out").expect("--out prefix");
+            let threads: usize = arg(&args, "--threads").map(|s| s.parse().unwrap()).unwrap_or(1);
+            let txt = std::fs::read_to_string(&file).unwrap();
+            let v: Value = serde_json::from_str(&txt).unwrap();
+            let hs: Vec<hist::History> = if v.is_array() {
+                serde_json::from_value(v).unwrap()
+            } else if v.get("history").is_some() {
+                vec![serde_json::from_value(v["history"].clone()).unwrap()]
+            } else {
+                vec![serde_json::from_value(v).unwrap()]
+            };
+            let hs = match arg(&args, "--only") {
+                Some(k) => vec![hs[k.parse::<usize>().unwrap()].clone()],
+                None => hs,
+            };
+            run_many(&hs, threads, &exec::RunCfg::default(), &out, 0);
+        }
+        _ => {
+            eprintln!("usage: harness gen|replay ...");
+            std::process::exit(2);
+        }
+    }
+}
